@@ -434,7 +434,10 @@ class Node:
             return
         peer = self.peers[conn.host_identity]
         peer.disconnect_reason = None
-        if not peer.connection:
+        if (not peer.connection or
+                peer.connection.state not in PEER_READY_STATES):
+            # this connection has completed its capabilities exchange, a
+            # previous one that is still pending does not take precedence
             peer.connection = conn
         if conn.ident in self._half_ready_connections:
             del self._half_ready_connections[conn.ident]
@@ -1447,6 +1450,15 @@ class Node:
             # only set if not yet set
             if peer.disconnect_reason is None:
                 peer.disconnect_reason = disconnect_reason
+            # the peer may hold a second connection (one that has completed
+            # its capabilities exchange, or is being established by us),
+            # which is then the one to use; one that is ready comes first
+            others = [c for c in self.connections.values()
+                      if self._find_connection_peer(c) is peer and
+                      (c.host_identity or c.is_sender)]
+            others.sort(key=lambda c: c.state not in PEER_READY_STATES)
+            if others:
+                peer.connection = others[0]
 
         # Remove pending answer tracking; we cannot know if the peer will
         # persist its hop-by-hop IDs over reconnect.
